@@ -293,3 +293,21 @@ def run(ctx):
                ('%s: lookup, consumption and insertion of a bucket are not one critical section (%s): concurrent first requests for one key '
                 'are each admitted against their own fresh bucket' % (fid.rsplit('::', 1)[-1], why)), entry=fid)
     ctx.floor('ATOMIC', 2)
+    # nobody else touches the bucket stores: a clear / pop / replacement of a bucket outside the two consume functions
+    # hands a key a fresh budget inside its window
+    nst = 0
+    for b in prog.bodies.in_files(['src/rate_limit.rs']):
+        for c in b.calls(L.LOCK_ACQ):
+            e = b.expr(c.args[0]).strip()
+            if not (e.k == 'field' and e.b in ('rate_limit::Engine::keyed', 'rate_limit::Engine::global')):
+                continue
+            nst += 1
+            okw = re.match(r'rate_limit::Engine::<K>::try_consume_(key|global)$', b.root) is not None
+            mode = c.short()
+            n = sum(1 for o in ctx.obls if o.key.startswith('store-access:%s' % b.root))
+            if okw:
+                continue
+            ctx.ob('ATOMIC', 'store-access:%s#%d' % (b.root, n), mode == 'read', c.where(),
+                   '%s takes the %s lock of the bucket store %s' % (b.root, mode, e.b.rsplit('::', 1)[-1]) +
+                   ('' if mode == 'read' else ': only try_consume_key / try_consume_global may change bucket state'), entry=b.root)
+    ctx.ob('ATOMIC', 'store-access-closed', nst >= 2, 'src/rate_limit.rs', '%d acquisitions of the bucket-store locks examined' % nst)
